@@ -127,6 +127,17 @@ CLAIMED = {
   note=COMMON_NOTE + "hardware branches whose implicit rows are regex rows (Huawei other, Nexus N3x.., Cisco) are outside the Lean "
        "matcher and checked by the oracle only; the patch clause executes vendor logics.",
   design="§5 C17", technique="Lean 4 proof (structural induction over rule trees) + differential correspondence"),
+ "C02": dict(
+  text="PARTIAL proof. Lean theorems over the model of apply_acl_diff / make_diff with ACL / _diff_and_patch with an ACL: (a, provenance "
+       "form) every diff entry surviving the ACL - hence every command - has a row the ACL matches at every level; the ACL only drops "
+       "entries and only relabels REMOVED->AFFECTED; (c) a REMOVED entry whose selected match has only cant_delete generators is "
+       "relabelled, and no common logic emits a removal without a REMOVED/MOVED bucket; (b, on the device specification) commands on "
+       "other (rule,key) slots leave a line, its subtree and position alone over whole command lists. The text reading of (a) is false "
+       "of the code (kernel-checked witness, finding F02a); (b) needs the hypothesis that an uncovered row shares no slot with a "
+       "command (finding F02b). Tie: _diff_and_patch with acl_rules vs the model on 1.9k (quick) generated rulebook/ACL/config cases; "
+       "oracle: clauses (a)(b)(c) by executing the real patch on the device specification.",
+  note=COMMON_NOTE + "device specification as in C01; ACL/pattern models tied by C06/C07; no filter-ACL; common logics.",
+  design="§5 C02", technique="Lean 4 proof (mutual induction over diff trees; device-level frame lemma) + differential correspondence + simulator oracle"),
 }
 REASONS = {}
 def main():
